@@ -110,6 +110,15 @@ class C04(Prop):
             dens = rng.choice([1, 2, 5, 9])
             pattern = [None if rng.below(10) < dens else i + 1 for i in range(n)]
             yield mk_remove_case(rng.choice(ets), pattern, rng.choice([1, 2, 3, -1, -2, -3, 5, -4]), rng.below(3), rng.below(2), nanvar=rng.below(5))
+        # lane lengths at and around the machine-word sizes (a bitmask or chunked implementation changes behaviour exactly
+        # there): 15..17, 31..33, 63..65, 127..129, 255..257, with a missing value in front of a present one
+        for n in (15, 16, 17, 31, 32, 33, 63, 64, 65, 127, 128, 129, 255, 256, 257):
+            for rep in range(2 if tier == "quick" else 12):
+                dens = rng.choice([0, 1, 3, 8])
+                pattern = [None if rng.below(10) < dens else i + 1 for i in range(n)]
+                if rep % 2 == 0 and n >= 2:
+                    pattern[0], pattern[-1] = None, n
+                yield mk_remove_case(rng.choice(ets), pattern, rng.choice([1, -1, 2, -3]), rng.below(2), rng.below(2), nanvar=rng.below(5))
 
     def corpus(self):
         # D3 witness (fixed): Option lane of stride 2 with pattern [v; None; v]
